@@ -320,6 +320,50 @@ func checkC10(e *Env, r *Report) {
 			}
 		}
 	}
+	// the complete value tables of the real code (aa.VerifTables): every value of every list-valued
+	// field merged with its neighbour in the table, and with the first and the last one
+	nTable := 0
+	tableRule := map[string]func(v string) string{
+		"signal/set":      func(v string) string { return "signal send set=" + v + " peer=p," },
+		"signal/access":   func(v string) string { return "signal " + v + " set=hup peer=p," },
+		"capability/name": func(v string) string { return "capability " + v + "," },
+		"ptrace/access":   func(v string) string { return "ptrace " + v + " peer=p," },
+		"unix/access":     func(v string) string { return "unix " + v + " type=stream," },
+		"mqueue/access":   func(v string) string { return "mqueue " + v + " type=posix /q," },
+		"io_uring/access": func(v string) string { return "io_uring " + v + " label=l," },
+		"mount/flags":     func(v string) string { return "mount options=(" + v + ") /a -> /b," },
+		"dbus/access":     func(v string) string { return "dbus " + v + " bus=session path=/a interface=i member=m peer=(name=n label=l)," },
+	}
+	if req, ok := aa.VerifTables()["requirements"].(map[string]map[string][]string); ok {
+		tks := []string{}
+		for k := range tableRule {
+			tks = append(tks, k)
+		}
+		sort.Strings(tks)
+		for _, tk := range tks {
+			parts := strings.SplitN(tk, "/", 2)
+			vals := req[parts[0]][parts[1]]
+			mk := tableRule[tk]
+			usable := []string{}
+			for _, v := range vals {
+				if v == "bind" && parts[0] == "dbus" {
+					continue // bind rules have another shape
+				}
+				if _, err := parseRuleTexts([]string{mk(v)}); err == nil {
+					usable = append(usable, v)
+				}
+			}
+			for i, v := range usable {
+				for _, w := range []string{usable[(i+1)%len(usable)], usable[0], usable[len(usable)-1]} {
+					if w != v {
+						add(fmt.Sprintf("table:%s:%s+%s", tk, v, w), []string{mk(v), mk(w)})
+						nTable++
+					}
+				}
+			}
+		}
+	}
+	r.Coverage["value_table_merges"] = nTable
 	nMixed := 400
 	if e.Tier == "thorough" {
 		nMixed = 5000
@@ -576,8 +620,17 @@ func checkC11(e *Env, r *Report) {
 	// the known path prefixes themselves (the node, not something under it) next to paths of the same
 	// directory that belong to another group: every triple, in all six orders
 	prefixRules := []string{}
-	for _, pfx := range []string{"@{exec_path}", "@{sh_path}", "@{coreutils_path}", "@{open_path}", "@{bin}", "@{lib}", "/opt", "/usr/share", "/etc", "/var", "/boot", "/home", "@{HOME}",
-		"@{user_cache_dirs}", "@{user_config_dirs}", "@{user_share_dirs}", "/tmp", "@{tmp}", "/dev/shm", "@{run}", "@{sys}", "@{PROC}", "/dev"} {
+	known := []string{"@{exec_path}", "@{sh_path}", "@{coreutils_path}", "@{open_path}", "@{bin}", "@{lib}", "/opt", "/usr/share", "/etc", "/var", "/boot", "/home", "@{HOME}",
+		"@{user_cache_dirs}", "@{user_config_dirs}", "@{user_share_dirs}", "/tmp", "@{tmp}", "/dev/shm", "@{run}", "@{sys}", "@{PROC}", "/dev"}
+	if fa, ok := aa.VerifTables()["fileAlphabet"].([]string); ok && len(fa) > 5 {
+		known = []string{} // the real table of the code under test
+		for _, x := range fa {
+			if strings.HasPrefix(x, "/") || strings.HasPrefix(x, "@{") {
+				known = append(known, x)
+			}
+		}
+	}
+	for _, pfx := range known {
 		prefixRules = append(prefixRules, pfx+" r,")
 	}
 	prefixRules = append(prefixRules, "/dev/null rw,", "/usr/lib/a r,", "/vmlinuz r,", "/srv/a r,", "/ r,", "/optional/a r,", "/dev/shm/a rw,", "/etc/a r,")
